@@ -9,6 +9,7 @@ import IweModel.Props.C01
 import IweModel.Props.C04
 import IweModel.Props.C17
 import IweModel.Props.C20
+import IweModel.Lemmas.ReaderTotal
 
 namespace Iwe.C03
 open Iwe
@@ -55,5 +56,50 @@ theorem walk_total (segs : List Seg) (a : List GNode) (s : Seg) (fuel : Nat)
     (h : Covers 0 segs a) (hs : s ∈ segs) :
     ∀ i ∈ Arena.allSubNodes a fuel s.base, (Arena.get a i).isEmpty = false :=
   fun i hi => (C20.walk_stays_in_segment segs a s fuel h hs i hi).2.2
+
+/-! ### the reader (`markdown/reader.rs`)
+
+The reader is a stack machine over the parser's events; `Model/Reader.lean` has one `.error` per
+`expect` / `unwrap` / `panic!` an event stream can reach (`top_block` on an empty stack, `pop_inline` /
+`pop_block` on empty stacks, `append_item` / `append_row` / `append_cell` / `append_block` on the wrong
+kind of block, `items.last_mut().unwrap()` on a list without items).  None is reached on a stream that
+follows the parser's grammar (`Spec/Events.lean`: blocks only at top level, in quotes and in items; inlines
+only in paragraphs, headings, cells, other inlines and tight items; every list has an item; tags are
+bracketed).  The grammar is an assumption about pulldown-cmark; the correspondence run evaluates it on
+the event stream of every generated text and reports a stream that violates it. -/
+
+/-- **the reader never panics while it reads** a grammatical event stream — at every prefix, i.e. also
+when the text ends inside open blocks -/
+theorem reader_total (content : Position.Bytes) (evs : List Reader.Ev)
+    (h : Events.wellFormedPrefix evs = true) : ∃ st, Reader.run content {} evs = .ok st :=
+  ReaderTotal.run_total_core content evs h
+
+/-- on a complete stream `MarkdownEventsReader::read` returns, with nothing left open: every block that
+was started is in the result or inside one of its containers -/
+theorem reader_delivers (content : Position.Bytes) (evs : List Reader.Ev)
+    (h : Events.wellFormed evs = true) :
+    (∃ r, Reader.read content evs = .ok r) ∧
+    ∃ st, Reader.run content {} evs = .ok st ∧ st.stack = [] ∧ st.inlines = [] ∧ st.metaBlock = false :=
+  ⟨ReaderTotal.read_total_core content evs h, ReaderTotal.run_delivers_core content evs h⟩
+
+/-- finding D9 on the model: `Text` inside a top-level HTML block (pulldown-cmark emits it for an HTML
+block indented by one to three spaces) reaches `top_block()` on an empty stack; that stream is what the
+grammar excludes -/
+theorem reader_panic_site (content : Position.Bytes) (s e : Nat) (t : String) :
+    Reader.read content [.startHtml, .text s e t, .endHtml] = .error .emptyStack
+    ∧ Events.wellFormedPrefix [.startHtml, .text s e t, .endHtml] = false :=
+  ⟨ReaderTotal.html_text_at_top_level_panics content s e t, ReaderTotal.html_text_at_top_level_not_wellFormed s e t⟩
+
+/-- non-vacuity: a stream with a tight item followed by a nested list and trailing text, a quote, a table
+and inline containers is grammatical, and the model reads it -/
+example :
+    let evs : List Reader.Ev :=
+      [.startList false, .startItem, .text 2 3 "a", .startList true, .startItem, .text 8 9 "b", .endItem, .endList,
+       .text 12 13 "c", .endItem, .endList,
+       .startQuote 14 20, .startPara 16 20, .startInline .emph 16 19, .text 17 18 "q", .endInline, .endPara, .endQuote,
+       .startTable 21 40 [.left], .startCell, .text 23 24 "h", .startRow, .startCell, .code 30 33 "x", .endTable,
+       .rule 41 44]
+    Events.wellFormed evs = true ∧ (match Reader.read [] evs with | .ok (bs, _) => bs.length | .error _ => 0) = 4 := by
+  decide
 
 end Iwe.C03
